@@ -108,7 +108,12 @@ def plan(seed, subbatch):
     env = planlib.dst_env(sub_rng(seed, "env"), n, base_s)
     if env:
         start = env[1]     # the stream straddles an offset change of the zone the process runs in
+    regimes = None
+    if subbatch == "faulty" and sub_rng(seed, "regimes").random() < 0.3:
+        # one-sided and flat stretches: readings of exactly 0 (RSI after a run of falling closes, ATR on flat candles)
+        regimes = world.REGIMES_NORMAL + ["oneside_down", "oneside_down", "stall", "oneside_up"]
     pre, ops, fired, rows = planlib.stream_and_schedule(seed, subbatch, n, base_s, start, faults, burst, 0.0,
+                                                        regimes=regimes, regime_len=(4, 30),
                                                         # (nothing may be trimmed at construction: a member manager
                                                         # derived from trimmed base candles is the known C08 finding)
                                                         preload=min(cfg.choice((0, 0, 1, 5)), 1 if short_life else 5))
